@@ -47,6 +47,21 @@ CHECKS = {
  "C16": dict(level="fault_enumeration", engine="E-CRASH", technique="runtime monitoring under process kills: ptrace supervisor kills the follower before each fs-mutating syscall; byte comparison with an ordinary restore at quiescence; sidecar monotonicity",
    text="A follower process (Restore with Follow) is driven poll by poll against staged primary histories with compaction, snapshots and retention; it is killed before every file-system-mutating syscall of its apply/sidecar cycles (and in the window between publishing the database and its first sidecar), restarted, and must converge byte-for-byte (masked header bytes) to Restore(TXID=replica max) without its sidecar ever regressing; graceful stop/restart histories run alongside.",
    note="SIGKILL of the process (page cache survives); poll cycles are counted logically through a counting ReplicaClient proxy in the victim; wall-clock limits only produce inconclusive", ref="§4 C16"),
+ "C03": dict(level="fault_enumeration", engine="E-CRASH", technique="runtime monitoring under process kills: ptrace supervisor kills the litestream process immediately before the Nth file-system-mutating syscall; post-kill file verification, restore of the last acknowledged TXID, restart and differential ack",
+   text="Scripted victim scenarios (sync/upload with checkpoints, compaction + snapshot, retention, restore, baseline fetch after meta loss, data-dir rollback, follow mode; the real litestream binary in the thorough tier) are killed before every (quick: every point of two scenarios plus boundaries and a PRNG sample of the others) fs-mutating syscall; afterwards every *.ltx under a final name must verify, restore outputs and sidecars must be complete, the last acknowledged TXID must restore to the image recorded at its acknowledgement, and a restarted victim must acknowledge a new sync that restores to the source.",
+   note="SIGKILL of the process (page cache survives; the power-loss half is C11's); the application lives in the driver and is never killed", ref="§4 C03"),
+ "C05": dict(level="fault_enumeration", engine="E-FAULT", technique="runtime monitoring under fault injection: seeded per-call fault schedules on a recording ReplicaClient proxy; gaplessness, ack=>stored, consistent restorability after every step, catch-up after faults stop",
+   text="Generated histories (writes, syncs, uploads, compactions, snapshots, Close with shutdown retry, meta-loss restarts) run over a proxy that injects {fail-before-effect, fail-after-effect, short-read, mid-stream error, premature EOF} per call; after every client call level 0 must be gapless, every acknowledgement must be stored and restore to the source, the replica must stay restorable to a consistent ledger state, and after faults stop replication must catch up.",
+   note="fault schedules are seeded classes (5/30/80 %, bursts, per-op targeting), not all assignments; fault-free view for restores", ref="§4 C05"),
+ "C11": dict(level="exploration", engine="E-TRACE", technique="runtime monitoring: strace log of the litestream process checked offline against write->fsync->rename->fsync(dir)->report ordering rules and a durable-set model for unlinks",
+   text="The C03 victim scenarios (plus variants where nothing else is published in the same call) are traced with strace; for every rename to a published name the source must have been fsynced after its last modification (R1) and the directory fsynced before success is reported (R2); for every unlink the set of durably stored files minus the victim must still contain a valid restore chain to the highest acknowledged TXID (R3).",
+   note="checks that the calls are issued in a safe order, not that kernel/disk honour them", ref="§4 C11"),
+ "C14": dict(level="exploration", engine="E-HIST", technique="runtime monitoring: differential replay of identical deterministic application histories with and without litestream; logical dump, bookkeeping tables, integrity and journal mode compared",
+   text="The same seeded application history runs twice (control without litestream; treatment with syncs, checkpoints in all modes, snapshots, compactions, Close/Open inserted at PRNG-chosen points, also inside open application transactions); schema and rows of every non-litestream object, user_version, integrity_check, journal_mode must be equal and _litestream_lock must be empty at every quiescent point.",
+   note="application statements that hit SQLITE_BUSY in the treatment are retried so both runs commit the same transactions", ref="§4 C14"),
+ "C17": dict(level="exploration", engine="E-HIST", technique="runtime monitoring: >1 GiB databases replicated and restored; every LTX file stream-scanned for the lock page, restored file stream-compared with the source",
+   text="Databases just below 1 GiB are grown across / up to / beyond SQLite's lock page within one sync, then snapshotted, compacted and restored; no LTX file may contain the lock page, every other page must restore exactly, the lock page must be zero.",
+   note="quick tier uses page size 65536 only (three placements); thorough covers all eight page sizes", ref="§4 C17"),
 }
 
 # properties not (yet) claimed: id -> reason
